@@ -1,11 +1,49 @@
-/- One line per property driver. Keep sorted. -/
+/- One line per property driver. -/
 import ControlModel.Basic
+import Driver.C01
+import Driver.C02
+import Driver.C03
+import Driver.C04
+import Driver.C05
+import Driver.C06
+import Driver.C07
+import Driver.C08
+import Driver.C09
+import Driver.C10
 import Driver.C11
+import Driver.C12
+import Driver.C13
+import Driver.C14
+import Driver.C15
+import Driver.C16
+import Driver.C17
+import Driver.C18
+import Driver.C19
+import Driver.C20
 
 namespace Driver
 
 def table : List (String × (String → String)) := [
-  ("C11", Driver.C11.processLine)
+  ("C01", Driver.C01.processLine),
+  ("C02", Driver.C02.processLine),
+  ("C03", Driver.C03.processLine),
+  ("C04", Driver.C04.processLine),
+  ("C05", Driver.C05.processLine),
+  ("C06", Driver.C06.processLine),
+  ("C07", Driver.C07.processLine),
+  ("C08", Driver.C08.processLine),
+  ("C09", Driver.C09.processLine),
+  ("C10", Driver.C10.processLine),
+  ("C11", Driver.C11.processLine),
+  ("C12", Driver.C12.processLine),
+  ("C13", Driver.C13.processLine),
+  ("C14", Driver.C14.processLine),
+  ("C15", Driver.C15.processLine),
+  ("C16", Driver.C16.processLine),
+  ("C17", Driver.C17.processLine),
+  ("C18", Driver.C18.processLine),
+  ("C19", Driver.C19.processLine),
+  ("C20", Driver.C20.processLine)
 ]
 
 def lookup (p : String) : Option (String → String) :=
